@@ -988,6 +988,9 @@ pub fn macro_child(a: &Args) {
     let seed = a.num("seed", 1);
     let ncalls = a.num("calls", 30);
     let unset = a.has("unset");
+    // --late-set: the first macro calls run while the global client is unset (each must panic), then the global
+    // client is set and the same thread goes on: from then on no macro may panic
+    let late = if a.has("late-set") { 3usize } else { 0 };
     let t = Trace::create(&a.req("out"));
     let mut rng = StdRng::seed_from_u64(seed ^ 0x3ac0_0005);
     let shapes: Vec<Value> = a
@@ -1011,8 +1014,15 @@ pub fn macro_child(a: &Args) {
     };
     let sink = RecSink(Arc::new(Mutex::new(SinkState::default())));
     let ehlog = Arc::new(Mutex::new(vec![]));
-    t.ev(cfg_event(&cfg, json!({"macro_process": seed, "global_set": !unset})));
-    if !unset {
+    t.ev(cfg_event(&cfg, json!({"macro_process": seed, "global_set": !unset, "late_set": late})));
+    let set_global = |sink: &RecSink, ehlog: &Arc<Mutex<Vec<Value>>>| {
+        cadence_macros::set_global_default(build_client(&cfg, sink.clone(), ehlog.clone()));
+        let other = RecSink(Arc::new(Mutex::new(SinkState::default())));
+        cadence_macros::set_global_default(StatsdClient::from_sink("other", other));
+    };
+    if !unset && late > 0 {
+        // set later, inside the call loop
+    } else if !unset {
         cadence_macros::set_global_default(build_client(&cfg, sink.clone(), ehlog.clone()));
         // a second set must be ignored (C18 at API level): it would change prefix and sink
         let other = RecSink(Arc::new(Mutex::new(SinkState::default())));
@@ -1040,12 +1050,17 @@ pub fn macro_child(a: &Args) {
         }
     }
     let mut n = 0;
+    let mut is_set = !unset && late == 0;
     for c in &calls {
+        if !unset && !is_set && n == late {
+            set_global(&sink, &ehlog);
+            is_set = true;
+        }
         n += 1;
         let mut c = c.clone();
         c.form = "macro".into();
         sink.0.lock().unwrap().script.push_back(if rng.random_bool(prefuse) { Some(io::ErrorKind::ConnectionRefused) } else { None });
-        t.ev(call_event(&c, !unset));
+        t.ev(call_event(&c, is_set));
         sink.0.lock().unwrap().events.clear();
         ehlog.lock().unwrap().clear();
         EVALS.with(|e| e.set(0));
